@@ -322,6 +322,92 @@ func mutate(b *baseStream, rnd *rand.Rand, perBase int) []mutation {
 	return out
 }
 
+// copyBits appends n bits of src starting at bit `from` to dst at bit position *pos
+func copyBits(dst *[]byte, pos *int, src []byte, from, n int) {
+	for i := 0; i < n; i++ {
+		for *pos/8 >= len(*dst) {
+			*dst = append(*dst, 0)
+		}
+		if src[(from+i)/8]>>(7-uint((from+i)%8))&1 == 1 {
+			(*dst)[*pos/8] |= 1 << (7 - uint(*pos%8))
+		}
+		*pos++
+	}
+}
+
+// reframe: block `bi` keeps only the first newBits bits of its frame, the length field says so, and the end marker follows at once:
+// a well-formed container around a frame that is too short for what its codec wants to read
+func reframe(b *baseStream, bi int, newBits int) []byte {
+	blk := b.st.Blocks[bi]
+	var d []byte
+	pos := 0
+	copyBits(&d, &pos, b.stream, 0, blk.Start+5)
+	lenField := make([]byte, 8)
+	kzfmt.SetBits(lenField, 0, blk.LW, uint64(newBits))
+	copyBits(&d, &pos, lenField, 0, blk.LW)
+	copyBits(&d, &pos, b.stream, blk.Payload, newBits)
+	copyBits(&d, &pos, b.stream, b.st.EndPos, b.st.EndBits-b.st.EndPos)
+	return d
+}
+
+// frameMutations: every frame length from one byte to a few bytes beyond the frame head, and some deeper cuts
+func frameMutations(b *baseStream) []mutation {
+	var out []mutation
+	for bi := range b.st.Blocks {
+		if bi >= 2 {
+			break
+		}
+		blk := b.st.Blocks[bi]
+		seen := map[int]bool{}
+		try := func(nb int) {
+			if nb < 1 || nb >= blk.LenBits || seen[nb] {
+				return
+			}
+			seen[nb] = true
+			out = append(out, mutation{fmt.Sprintf("blk%d.reframe=%dbits", blk.ID, nb), reframe(b, bi, nb)})
+		}
+		for k := 1; k <= blk.HeadBits/8+20; k++ {
+			try(8 * k)
+		}
+		for _, k := range []int{blk.HeadBits + 1, blk.HeadBits + 7, blk.HeadBits + 33, blk.LenBits / 2 &^ 7, blk.LenBits - 8, blk.LenBits - 64, blk.LenBits - 1, blk.LenBits - 72} {
+			try(k)
+		}
+	}
+	return out
+}
+
+// frameBases: every entropy codec x checksum on untransformed data, every transform with entropy NONE
+func frameBases(seed int64) []*baseStream {
+	var out []*baseStream
+	mk := func(tf, en string, ck uint, k int) {
+		shape := []string{"text", "skew", "dna", "mixed", "exe"}[k%5]
+		size := 2500 + 37*k
+		w := kz.Cfg{Transform: tf, Entropy: en, Block: 2048, Jobs: 1, Ck: ck, Hint: -1}
+		data := gen.Make(shape, seed*31+int64(k), size)
+		stream, err := kz.Compress(data, w, nil, nil)
+		if err != nil {
+			return
+		}
+		st, perr := kzfmt.Parse(stream, false, 0)
+		if perr != nil || len(st.Blocks) == 0 {
+			return
+		}
+		out = append(out, &baseStream{desc: fmt.Sprintf("%s&%s B=2048 n=%d ck=%d %s", tf, en, size, ck, shape), w: w, data: data, stream: stream, st: st})
+	}
+	k := 0
+	for _, en := range entropyNames {
+		for _, ck := range []uint{0, 32, 64} {
+			mk("NONE", en, ck, k)
+			k++
+		}
+	}
+	for _, tf := range transformNames[1:] {
+		mk(tf, "NONE", []uint{0, 32, 64}[k%3], k)
+		k++
+	}
+	return out
+}
+
 // bigMutations: forged primary indexes and headers of the multi-MiB BWT regime
 func bigMutations(b *baseStream, rnd *rand.Rand) []mutation {
 	var out []mutation
@@ -356,6 +442,7 @@ func cmdC03(args []string) int {
 	sum := fs.String("sum", "", "summary file")
 	dir := fs.String("dir", "", "scratch directory")
 	thorough := fs.Bool("thorough", false, "thorough")
+	frames := fs.Bool("frames", false, "add the short-frame family (every codec x checksum, every frame length around the frame head)")
 	par := fs.Int("par", 8, "parallel children")
 	fs.Parse(args)
 	rnd := rand.New(rand.NewSource(*seed*6151 + 3))
@@ -377,6 +464,11 @@ func cmdC03(args []string) int {
 		}
 		// bound: generous multiple of what the declared sizes can justify (valid decode of these takes milliseconds)
 		addAll(b, mutate(b, rnd, *perBase), 45000)
+	}
+	if *frames {
+		for _, b := range frameBases(*seed) {
+			addAll(b, frameMutations(b), 20000)
+		}
 	}
 	for k := 0; k < *nbig; k++ {
 		b := makeBase(rnd, 5000+k+int(*seed)*1000, *thorough, true)
